@@ -812,3 +812,89 @@ impl<T> Queue<T> {
         unsafe { (*self.vec.get()).pop() }
     }
 }
+
+// ---------------------------------------------------------------------------------------------
+// Read-only verification hooks (cfg(gc_arena_verif)); never compiled in normal builds.
+// ---------------------------------------------------------------------------------------------
+#[cfg(gc_arena_verif)]
+pub mod verif {
+    use alloc::vec::Vec;
+
+    /// One allocation on the `all` list, in list order.
+    #[derive(Debug, Clone, PartialEq, Eq)]
+    pub struct ObjSnap {
+        pub addr: usize,
+        /// 0 = White, 1 = WhiteWeak, 2 = Gray, 3 = Black
+        pub color: u8,
+        pub needs_trace: bool,
+        pub live: bool,
+    }
+
+    /// A read-only copy of the collector's internal state.
+    #[derive(Debug, Clone, PartialEq)]
+    pub struct Snapshot {
+        /// 0 = Sleep, 1 = Mark, 2 = Sweep, 3 = Drop
+        pub phase: u8,
+        pub all: Vec<ObjSnap>,
+        pub sweep: Option<usize>,
+        pub sweep_prev: Option<usize>,
+        pub gray: Vec<usize>,
+        pub gray_again: Vec<usize>,
+        pub root_needs_trace: bool,
+        pub metrics: crate::metrics::verif::MetricsSnap,
+    }
+}
+
+#[cfg(gc_arena_verif)]
+impl<T: Copy> Queue<T> {
+    fn verif_to_vec(&self) -> Vec<T> {
+        unsafe { (*self.vec.get().cast_const()).clone() }
+    }
+}
+
+#[cfg(gc_arena_verif)]
+impl Context {
+    pub(crate) fn verif_snapshot(&self) -> verif::Snapshot {
+        let addr = |p: GcPtr| p.as_ptr() as usize;
+        let mut all = Vec::new();
+        let mut cur = self.all.get();
+        while let Some(p) = cur {
+            let h = p.header();
+            all.push(verif::ObjSnap {
+                addr: addr(p),
+                color: match h.color() {
+                    GcColor::White => 0,
+                    GcColor::WhiteWeak => 1,
+                    GcColor::Gray => 2,
+                    GcColor::Black => 3,
+                },
+                needs_trace: h.needs_trace(),
+                live: h.is_live(),
+            });
+            cur = h.next();
+        }
+        verif::Snapshot {
+            phase: match self.phase {
+                Phase::Sleep => 0,
+                Phase::Mark => 1,
+                Phase::Sweep => 2,
+                Phase::Drop => 3,
+            },
+            all,
+            sweep: self.sweep.map(addr),
+            sweep_prev: self.sweep_prev.get().map(addr),
+            gray: self.gray.verif_to_vec().into_iter().map(addr).collect(),
+            gray_again: self.gray_again.verif_to_vec().into_iter().map(addr).collect(),
+            root_needs_trace: self.root_needs_trace,
+            metrics: self.metrics.verif_snapshot(),
+        }
+    }
+}
+
+#[cfg(gc_arena_verif)]
+impl<'gc> Mutation<'gc> {
+    /// Read-only snapshot of the collector state (verification builds only).
+    pub fn verif_snapshot(&self) -> verif::Snapshot {
+        self.context.verif_snapshot()
+    }
+}
